@@ -8,6 +8,8 @@ import (
 	"fmt"
 	"io"
 	"log/slog"
+	"net"
+	"os"
 	"strconv"
 	"strings"
 	"time"
@@ -812,15 +814,90 @@ func c02HistoryOracle(c *Case, pvOn bool, ops []c02OpRec, frames [][]byte, r c02
 	if r.left != "0" {
 		c.Oracle("session-closed-early", fmt.Sprintf("the serve loop returned with %s client stream(s) unread", r.left))
 	}
-	// the same bytes through a real pipe pair must give the same output
-	done := make(chan c02Result, 1)
-	go func() { done <- c02Serve(pvOn, frames, true) }()
-	select {
-	case pr := <-done:
-		if !bytes.Equal(pr.raw, r.raw) {
-			c.Oracle("pipe-transport-differs", fmt.Sprintf("io.Pipe run wrote %v, buffer run wrote %v", pr.streams, r.streams))
-		}
-	case <-time.After(20 * time.Second):
-		c.Oracle("pipe-transport-hang", "Serve over io.Pipe did not return")
+	// the same bytes through a real pipe pair, a Unix socket (RunUnix) and a TCP socket (RunTcp)
+	// must give the same output
+	var all []byte
+	for _, f := range frames {
+		all = append(all, f...)
 	}
+	for _, tr := range []string{"pipe", "unix", "tcp"} {
+		done := make(chan []byte, 1)
+		go func() {
+			if tr == "pipe" {
+				done <- c02Serve(pvOn, frames, true).raw
+			} else {
+				done <- c02ServeSocket(pvOn, tr, all)
+			}
+		}()
+		select {
+		case raw := <-done:
+			if !bytes.Equal(raw, r.raw) {
+				c.Oracle(tr+"-transport-differs", fmt.Sprintf("%s run wrote %v, buffer run wrote %v", tr, c02Decode(raw), r.streams))
+			}
+			c.Stat("transport:" + tr)
+		case <-time.After(20 * time.Second):
+			c.Oracle(tr+"-transport-hang", "serving the history over "+tr+" did not finish")
+		}
+	}
+}
+
+// ---------------------------------------------------------------- socket transports
+
+type c02Listener struct {
+	network, addr string
+}
+
+var c02Listeners = map[string]*c02Listener{}
+
+// c02ListenerFor starts (once per process) RunUnix / RunTcp on a fresh scripted server.
+func c02ListenerFor(pvOn bool, kind string) *c02Listener {
+	key := fmt.Sprintf("%s/%v", kind, pvOn)
+	if l, ok := c02Listeners[key]; ok {
+		return l
+	}
+	srv := c02NewServer(pvOn)
+	ready := make(chan *c02Listener, 1)
+	if kind == "unix" {
+		// Linux abstract socket: nothing is left in the file system
+		path := fmt.Sprintf("@verif-c02-%d-%v", os.Getpid(), pvOn)
+		go func() {
+			_ = srv.RunUnix(path, 0, func(p string) { ready <- &c02Listener{"unix", p} })
+		}()
+	} else {
+		go func() {
+			_ = srv.RunTcp("127.0.0.1", 0, 0, func(h string, p int) {
+				ready <- &c02Listener{"tcp", net.JoinHostPort(h, strconv.Itoa(p))}
+			})
+		}()
+	}
+	select {
+	case l := <-ready:
+		c02Listeners[key] = l
+		return l
+	case <-time.After(10 * time.Second):
+		panic("C02: " + kind + " listener did not come up")
+	}
+}
+
+// c02ServeSocket plays the client's bytes over one socket connection and returns everything
+// the server wrote until it closed the connection.
+func c02ServeSocket(pvOn bool, kind string, all []byte) []byte {
+	l := c02ListenerFor(pvOn, kind)
+	conn, err := net.Dial(l.network, l.addr)
+	if err != nil {
+		return []byte("dial error: " + err.Error())
+	}
+	defer conn.Close()
+	go func() {
+		_, _ = conn.Write(all)
+		switch cc := conn.(type) {
+		case *net.UnixConn:
+			_ = cc.CloseWrite()
+		case *net.TCPConn:
+			_ = cc.CloseWrite()
+		}
+	}()
+	_ = conn.SetReadDeadline(time.Now().Add(15 * time.Second))
+	out, _ := io.ReadAll(conn)
+	return out
 }
